@@ -516,6 +516,44 @@ fn check_c20(ops: &[Op], info: &PlanInfo, obs: &Obs, out: &mut Vec<Viol>) {
             }
         }
     }
+    // what is printed for an unnamed system does not depend on what the other systems are called
+    if let (Some(Ok(a)), Some(Ok(b)), Some(l)) = (&obs.debug, &obs.debug_renamed, &obs.layout) {
+        if let (Ok(pa), Ok(pb)) = (parse_par_seq(a), parse_par_seq(b)) {
+            for (s, st) in l.stages.iter().enumerate() {
+                for (g, gr) in st.iter().enumerate() {
+                    for (q, id) in gr.iter().enumerate() {
+                        if !info.nodes[*id].name.is_empty() {
+                            continue;
+                        }
+                        if let (Some(ta), Some(tb)) = (pa.get(s).and_then(|x| x.get(g)).and_then(|x| x.get(q)), pb.get(s).and_then(|x| x.get(g)).and_then(|x| x.get(q))) {
+                            if ta != tb {
+                                out.push(v("C20", "placeholder-depends-on-other-names", format!("unnamed system {} is printed as {:?}; with the other systems renamed (fresh names without separators) the same system is printed as {:?}\n{}", id, ta, tb, a)));
+                            }
+                        }
+                    }
+                }
+            }
+        }
+    }
+    // the placeholders of distinct unnamed systems differ (sanitised NAMES may coincide: "a b" and "a-b" both print as a_b)
+    if let (Some(Ok(a)), Some(l)) = (&obs.debug, &obs.layout) {
+        if let Ok(pa) = parse_par_seq(a) {
+            let mut seen: BTreeSet<&String> = BTreeSet::new();
+            for (s, st) in l.stages.iter().enumerate() {
+                for (g, gr) in st.iter().enumerate() {
+                    for (q, id) in gr.iter().enumerate() {
+                        if info.nodes[*id].name.is_empty() {
+                            if let Some(t) = pa.get(s).and_then(|x| x.get(g)).and_then(|x| x.get(q)) {
+                                if !seen.insert(t) {
+                                    out.push(v("C20", "placeholder-used-twice", format!("two unnamed systems are printed with the same placeholder {:?}\n{}", t, a)));
+                                }
+                            }
+                        }
+                    }
+                }
+            }
+        }
+    }
     if let Some(l) = &obs.layout {
         for (what, l2) in &obs.layout_after_use {
             match l2 {
@@ -617,6 +655,25 @@ pub fn check_state(p: &Props, ops: &[Op], info: &PlanInfo, obs: &Obs, last_only:
         }
     }
     if p.c12 {
+        if let Some((order, runs, panic)) = &obs.sendable_use {
+            if let Some(e) = panic {
+                out.push(v("C12", "sendable-form-panicked", format!("dispatching the sendable form panicked: {}", e)));
+            } else {
+                let want: Vec<usize> = l.stages.iter().flatten().flatten().copied().collect();
+                if *order != want {
+                    out.push(v("C12", "sendable-plan-differs", format!("dispatch_seq of the sendable form begins the systems in the order {:?}, the plan before the conversion is {} (= {:?})", order, l.short(), want)));
+                }
+                for n in info.nodes.iter().filter(|n| !info.rejected.contains(&n.id)) {
+                    let exp = expected_runs(info, n.id, 3, 1);
+                    // (thread-local systems: none at top level; inside batches they run with every inner dispatch, and an
+                    // inner dispatcher is dispatched by its controller in all three calls)
+                    let exp = if n.kind == Kind::Tl { expected_runs(info, n.id, 3, 3) } else { exp };
+                    if runs[n.id] != exp {
+                        out.push(v("C12", "sendable-plan-differs", format!("after dispatch_seq, dispatch_par and dispatch of the sendable form system {} has run {} times, expected {}: {}", n.id, runs[n.id], exp, l.short())));
+                    }
+                }
+            }
+        }
         if let Some((ok, runs, lay, again)) = &obs.after_rejected_conversion {
             if !ok {
                 out.push(v("C12", "dispatcher-broken-after-rejected-conversion", "the dispatcher handed back by a rejected try_into_sendable panicked in dispatch".to_string()));
@@ -748,6 +805,16 @@ pub fn check_state(p: &Props, ops: &[Op], info: &PlanInfo, obs: &Obs, last_only:
                 if n.kind != Kind::Batch && di[n.id] != 1 {
                     let sig = if n.parent.is_some() { "dispose-not-forwarded-into-batch" } else { "dispose-count" };
                     out.push(v("C13", sig, format!("system {} (depth {}) was disposed {} times", n.id, n.depth, di[n.id])));
+                }
+            }
+        }
+        if let Some((su, di)) = &obs.setups_via_sendable {
+            for n in &info.nodes {
+                if n.kind != Kind::Batch && !n.is_static && su[n.id] != 1 {
+                    out.push(v("C13", "setup-count-via-sendable", format!("system {} (depth {}) was set up {} times when the dispatcher was converted and its sendable form set up", n.id, n.depth, su[n.id])));
+                }
+                if n.kind != Kind::Batch && di[n.id] != 1 {
+                    out.push(v("C13", "dispose-count-via-sendable", format!("system {} (depth {}) was disposed {} times when the dispatcher was converted and its sendable form disposed", n.id, n.depth, di[n.id])));
                 }
             }
         }
